@@ -11,7 +11,7 @@ pub fn spec() -> PropSpec {
     PropSpec {
         id: "C04",
         level: "exploration",
-        rule: "all multisets of 1..3 solutions (thorough: a thinned 4) from a colliding domain — 2 contracts x 6 predicates (always true; data output computing [1]->[9]; post-state constraints 'key [0] reads [7]', '[0] reads [8]', '[1] reads [9]', '[1] reads [7]') x 6 declared mutation sets over keys {[0],[1]} and values {[],[7],[8]} — x ALL permutations. Metamorphic oracle across the permutations of one set: identical content address, identical check_set verdict class; for accepted sets identical two-pass verdict (failing solutions matched through the permutation), total gas and computed mutations per solution; invariant: an accepted set never contains two mutations of one (contract, key) with different values. non-trivial = set with >= 2 solutions that check_set accepts; distinct by the sorted set",
+        rule: "all multisets of 1..3 solutions (thorough: 4) from a colliding domain — 2 contracts x 6 predicates (always true; data output computing [1]->[9]; post-state constraints 'key [0] reads [7]', '[0] reads [8]', '[1] reads [9]', '[1] reads [7]') x 6 declared mutation sets over keys {[0],[1]} and values {[],[7],[8]} — x ALL permutations. Metamorphic oracle across the permutations of one set: identical content address, identical check_set verdict class; for accepted sets identical two-pass verdict (failing solutions matched through the permutation), total gas and computed mutations per solution; invariant: an accepted set never contains two mutations of one (contract, key) with different values. non-trivial = set with >= 2 solutions that check_set accepts; distinct by the sorted set",
         assumptions: &["predicates come from a fixed menu; the state is empty"],
         run,
         replay,
@@ -196,7 +196,7 @@ fn check_set_case(base: &[SolCase], rep: &mut Report) {
 
 fn run(cfg: &RunCfg, rep: &mut Report) {
     let d = domain();
-    rep.bound_completed = format!("all multisets of 1..3 solutions over a domain of {} solutions, all permutations{}", d.len(), cfg.tier.pick("", "; plus every 29th multiset of 4"));
+    rep.bound_completed = format!("all multisets of 1..3 solutions over a domain of {} solutions, all permutations{}", d.len(), cfg.tier.pick("", "; plus all multisets of 4 (24 permutations each)"));
     let mut idx = 0u64;
     for i in 0..d.len() {
         idx += 1;
@@ -220,7 +220,7 @@ fn run(cfg: &RunCfg, rep: &mut Report) {
                 if cfg.tier == Tier::Thorough {
                     for l in k..d.len() {
                         idx += 1;
-                        if idx % 29 == 0 && cfg.mine(idx / 29) {
+                        if cfg.mine(idx) {
                             check_set_case(&[d[i].clone(), d[j].clone(), d[k].clone(), d[l].clone()], rep);
                         }
                     }
